@@ -205,5 +205,5 @@ def rw6(F, R):
             R.bad("RW6", "RW6/%s/%s" % (fk, e.kind), e.where(),
                   "%s changes a vertex's %s: only bind (edges) and put/data (datum, read status) and add (blank) may, so calls on "
                   "other vertices and queries cannot change what kid()/data() answer" % (fk, e.kind.split("_")[0]))
-    R.floor("RW6", "edges/data/persistence writes on graph vertices", n, 6)
+    R.floor("RW6", "edges/data/persistence writes on graph vertices", n, 3)
     R.ok("RW6", "(crate)", "all %d writes of edges/data/read status on graph vertices are in bind / put / data / add" % n)
